@@ -362,6 +362,51 @@ def run(chk, tier):
                 okm = mo == ['ok(call:MplsLabelStackMemberPacket::new_view(bytes))'] or mo == ['call:Result::ok(call:MplsLabelStackMemberPacket::new_view(bytes))']
                 if not okm:
                     vals = vals + ['closure: %s' % mo]
+        if not okm:
+            # the same collection as an explicit loop: `for bytes in value.members() { if let Ok(m) = new_view(bytes) { v.push(from(m)) } }` — by the std
+            # contract of `for`, every item of members() is visited once; each visit views the item and pushes its conversion iff the view succeeds
+            el = Engine(prog, inline_depth=0, loop_visits=2)
+            stl = St()
+            lo = el.run(f_, [('sym', 'value')], stl)
+            okl, nvis = bool(lo), 0
+            for o in lo:
+                ev = user_calls(o)
+                dec = {vshow(a): v for a, v, _ in o.st.decisions}
+                names = [short(c[1]) for c in ev]
+                if names[:3] != ['Vec::new', 'MplsLabelStackPacket::members', 'IntoIterator::into_iter'] or vshow(ev[1][7][0]) != 'value':
+                    okl = False
+                    continue
+                i = 3
+                while i < len(ev):
+                    if not re.search(r'::next$', ev[i][1]):
+                        okl = False
+                        break
+                    item = 'field:0(%s)' % vshow(('term', 'call:' + short(ev[i][1]), ev[i][7]))
+                    j = i + 1
+                    body = []
+                    while j < len(ev) and not re.search(r'::next$', ev[j][1]):
+                        body.append(ev[j])
+                        j += 1
+                    bn = [short(c[1]) for c in body]
+                    if body:
+                        nvis += 1
+                        nv = vshow(('term', 'call:' + short(body[0][1]), body[0][7]))
+                        if bn[0] != 'MplsLabelStackMemberPacket::new_view' or vshow(body[0][7][0]) != item:
+                            okl = False
+                        elif dec.get('discr(%s)' % nv) == 0:
+                            # truncated traces may stop after the view; a completed visit converts and pushes exactly once
+                            if bn[1:] not in (['extension::from', 'Vec::push'], ['extension::from'], []) or (len(body) > 1 and vshow(body[1][7][0]) != 'field:0(%s)' % nv) or \
+                                    (len(body) > 2 and not vshow(body[2][7][1]).startswith('call:extension::from(field:0(%s' % nv[:60])):
+                                okl = False
+                            if o.kind == 'return' and bn[1:] != ['extension::from', 'Vec::push']:
+                                okl = False
+                        elif dec.get('discr(%s)' % nv) == 1 and bn[1:]:
+                            okl = False
+                    i = j
+                if o.kind == 'return' and not re.fullmatch(r'MplsLabelStack\((call:Vec::new\(\)|havoc:Vec::push\(.*\))\)', vshow(o.value)):
+                    okl = False
+            if okl and nvis:
+                okm = True
         if okm:
             chk.ok('R7', 'mpls-stack:members', 'members().flat_map(new_view).map(from).collect()')
         else:
